@@ -658,6 +658,18 @@ pub fn c12_queries(st: &mut RealState, case: &mut Case, ctx: &str, _rose: Option
     }
     let ac = q(st, case, "colless");
     let asn = q(st, case, "sackin");
+    // the normalised indices against the model's exact rationals (Arena/QueryMore: the Yule normalisation of Sackin is a rational
+    // function; for the PDA normalisations the model carries the square): refusals included
+    for nq in ["sackin_yule", "sackin_pda_sq", "colless_pda_sq"] {
+        // the harmonic sum as an exact fraction fits 128 bits up to 70 leaves
+        if nq == "sackin_yule" && nl > 70 {
+            continue;
+        }
+        let a = q(st, case, nq);
+        if a.contains("float-differs") || a.contains("refusals-differ") {
+            fail(rep, "index", nq, nq, &a);
+        }
+    }
     if rooted && bin {
         if ac != format!("ok {}", colless(&r)) {
             fail(rep, "index", "colless", "colless", &format!("{ac} expected {}", colless(&r)));
